@@ -1,8 +1,10 @@
 package main
 
 import (
+	"bytes"
 	"fmt"
 	"go/ast"
+	"go/printer"
 	"go/token"
 	"math/big"
 	"strconv"
@@ -236,6 +238,15 @@ func c20LitFields(p *Pkg, fn *ast.FuncDecl, typ string) map[string]ast.Expr {
 	return res
 }
 
+// source text of an expression
+func exprText(p *Pkg, e ast.Expr) string {
+	var b bytes.Buffer
+	if err := printer.Fprint(&b, p.Fset, e); err != nil {
+		panic(err)
+	}
+	return b.String()
+}
+
 func c20ExprString(e ast.Expr) string {
 	switch x := e.(type) {
 	case *ast.Ident:
@@ -355,6 +366,33 @@ func init() {
 				return true
 			})
 			return ok
+		}),
+		// isShrunkSnapshot: the only snapshots for which the image is not inspected
+		// (snapshotter.Shrunk) are those of a state machine that is not on-disk and
+		// witness / dummy ones - in particular an Imported record is inspected
+		boolFact("shrunk_check_inspects_imported", func() bool {
+			p := loadPkg("internal/rsm")
+			fn := p.Func("StateMachine", "isShrunkSnapshot")
+			var conds []string
+			for _, st := range fn.Body.List {
+				if is, ok := st.(*ast.IfStmt); ok && is.Init == nil {
+					conds = append(conds, exprText(p, is.Cond))
+					continue
+				}
+				// the first statement that is not an early-return if must be the inspection
+				found := false
+				ast.Inspect(st, func(n ast.Node) bool {
+					if c, ok := n.(*ast.CallExpr); ok && c20CalleeName(c) == "Shrunk" {
+						found = true
+					}
+					return true
+				})
+				if !found {
+					return false
+				}
+				break
+			}
+			return len(conds) == 2 && conds[0] == "!s.OnDiskStateMachine()" && conds[1] == "ss.Witness || ss.Dummy"
 		}),
 		boolFact("check_recover_exempts_imported", func() bool {
 			p := loadPkg("internal/rsm")
